@@ -23,7 +23,7 @@ P = {
    text="Complete grids: binomial_bounds (every num_samples to 4096/8192 + geometric grid to 2^26 x 102-290 thetas x sd 1..3, against an exact binomial-tail oracle where the header documents exactness), ICON estimator for lg_k 4..26 and every C to 2^16/2^18 (monotone, continuity at the switch, against the definition of the estimator), HLL tables, and the order / nesting / exactness clauses through the API of Theta, Tuple, HLL (3 types in lock-step), CPC and their set-operation results after every update to 16k. The statistical clauses are evaluated exactly over the fixed family of streams {t*2^32 .. +n-1}, t < 1024 (family_enumeration) against the published RSE with a 5-sigma allowance.",
    note="Statistical clauses decided only over the stated deterministic family; calibration gates set at >= 4x the value measured on the unchanged tree where the documentation gives no exact figure."),
  "C07": dict(engine="E1xE3", design="3/C07", technique="BFS over update/merge histories with every coin outcome as a branch, against an exact multiset model",
-   text="KLL (k=8; float and string with a reversing comparator), REQ (k=4, HRA/LRA, both construction coins) and classic quantiles (k=2,4; int and string): BFS over update / query / merge histories (merge operands from an enumerated menu incl. unequal k and operands that are themselves merge results, by lvalue, rvalue and in the reverse direction) with every outcome of the internal coin flips and of the down-sampling offset as a branch; in every state n, exact min/max, iterator termination / count / weights (2^level) / sum, retained bound, sorted view, rank and quantile monotonicity and coherence, CDF/PMF, rejection of invalid queries and exactness before compaction are compared with the exact multiset of accepted items.",
+   text="KLL (k=8; float and string with a reversing comparator), REQ (k=4, HRA/LRA, both construction coins) and classic quantiles (k=2,4; int and string): BFS over update / query / merge histories (merge operands from an enumerated menu incl. unequal k and operands that are themselves merge results, by lvalue, rvalue and in the reverse direction) with every outcome of the internal coin flips and of the down-sampling offset as a branch; in every state n, exact min/max, iterator termination / count / weights (2^level) / sum, retained bound, sorted view, rank and quantile monotonicity and coherence, CDF/PMF, rejection of invalid queries and exactness before compaction are compared with the exact multiset of accepted items. Merge-then-long scenarios follow merges (also into the operand) by a macro step of 100-300 further updates under a fixed coin schedule with the space bound checked after every update (KLL k=8, REQ k=4 and k=6, the smallest k whose nominal capacity changes with the number of compactions).",
    note="Smallest legal k; 3-4 value domains; unsorted level 0 canonicalised as a multiset (sortedness flags and the cached-view flag are part of the state); depth bounds per scenario in the evidence."),
  "C08": dict(engine="E3", design="3/C08", technique="complete coin-tree enumeration with Markov state merging; exact integer unbiasedness identity",
    text="(1) BFS over distribution-states: every update sequence over a 3-value domain up to a length bound with the complete coin tree and Markov merging; (2) complete coin trees for distinct-valued stream shapes and merge trees (A.merge(B), rvalue, reverse direction, three-way, unequal k) with the exact identity E[n*rank(v)] == true count for every grid value and both criteria, and outcome-independence of the number of flips; (3) complete coin trees over long small-domain streams with live (cloned, validated) states - REQ to n=460/900 so that several levels grow; (4) one-step martingale checks along long distinct-valued streams under fixed coin schedules for KLL and classic (not REQ, whose odd compactions reuse the complement of the previous coin); (5) the published error follows the smallest contributing k through merge chains; (6) long streams over a fixed enumerated family of bit sources against the published error (family_enumeration).",
@@ -41,29 +41,29 @@ P = {
    text="Frequent-items sketch at the smallest map sizes with a harness hasher that places items in chosen slots (distinct, wrapping cluster, all-colliding): every history to the depth bound, with bounds, estimates, max error, total weight, and both error-type result sets compared with exact counts for every item in every state.",
    note="lg_max_map_size 3..4, 8 items, weights {1,2,5}."),
  "C13": dict(engine="E1", design="3/C13", technique="C01/C02 explorers instantiated for tuple sketches with a non-commutative summary fold model",
-   text="Tuple update sketch, union, intersection, A-not-B, filter and array-of-doubles explored like C01/C02 with summary policy s<-31s+v so that dropped, repeated or reordered folds are visible; keys compared with a lock-step theta sketch.",
+   text="Tuple update sketch, union, intersection, A-not-B, filter and array-of-doubles explored like C01/C02 with summary policy s<-31s+v so that dropped, repeated or reordered folds are visible; keys compared with a lock-step theta sketch. Every update() overload is swept over a typed boundary grid and all 2^16 / 2^8 values of the 16- and 8-bit integer types against the theta sketch and the independent hash.",
    note="Same bounds as C01/C02."),
  "C14": dict(engine="E1", design="3/C14", technique="BFS over updates/merges against an exact counter map and an independently hashed cell model",
-   text="Count-min sketches for several (num_hashes, num_buckets, seed): every history to the depth bound; the cell array is predicted with the oracle MurmurHash3; estimates/bounds/total weight/merge linearity/refused merges checked in every state.",
+   text="Count-min sketches for several (num_hashes, num_buckets, seed): every history to the depth bound; the cell array is predicted with the oracle MurmurHash3; estimates/bounds/total weight/merge linearity/refused merges (self, other seed, a different seed with the same 16-bit seed hash, other shapes incl. equal cell count) checked in every state.",
    note="Confidence clause only over a fixed enumerated family."),
  "C15": dict(engine="E1", design="3/C15", technique="BFS over views of one logical filter (owned, writable wrap, read-only wrap, deserialized) against a bit-vector model",
    text="Bloom filter operations on owned and caller-memory filters with injected hash pairs and typed inputs; in every state every view's bits, popcount and queries are compared with the model; set operations are bitwise; refusals leave state unchanged.",
    note="num_bits in {1,63,64,65,128}, num_hashes in {1,3}, 4-item universe."),
  "C16": dict(engine="E3", design="3/C16", technique="probabilistic choice-tree exploration with interval discovery over raw draws; exact expectation identities",
-   text="VarOpt sketches for k 1..4 over all weight sequences to a bound: every outcome of every random draw is enumerated with its probability (decision intervals discovered on the raw 64-bit draw); per-branch invariants (sample count, heavy items exact, total weight conserved, bounds) and exact unbiasedness of every item's adjusted weight; unions of reached sketches.",
+   text="VarOpt sketches for k 1..4 over all weight sequences to a bound: every outcome of every random draw is enumerated with its probability (decision intervals discovered on the raw 64-bit draw); per-branch invariants (sample count, heavy items exact, total weight conserved, bounds) and exact unbiasedness of every item's adjusted weight; unions of operand distributions in every feeding order at max_k 2..3 (gadget overflows) and at max_k 16 (pseudo-exact: equal and different tau, exact operands in between).",
    note="Integer weights; minimum decision-interval width assumption recorded in the evidence."),
  "C17": dict(engine="E1+E2", design="3/C17", technique="BFS over short value/merge/query sequences and deviation-bounded long streams against an exact multiset",
-   text="t-digest (k=10,20; double/float): total weight, exact extremes, monotone rank/quantile, CDF/PMF, centroid bound in every state; accuracy clause over the enumerated long streams.",
-   note="Accuracy thresholds set with margin over the enumerated family."),
+   text="t-digest (k=10,11,20; double/float): E1 BFS by history replay over updates (incl. a huge value and NaN), rank/quantile queries, serialize, compress, merge(self), merge with a menu of 7 operands in both directions (depth 6/8 values, 4/5 merges) and from four hand-built reference-format images with heavy extreme centroids; E2 all paths with <=1 (every position) / <=2 (block granularity) deviations from six 650..900-step streams crossing several compressions with alternating merge direction. Oracle in every state against the exact multiset: total weight, emptiness, centroid weights, centroid and buffer bounds, exact extremes, sorted means, rank in [0,1] non-decreasing with 0 below min and 1 above max, quantile non-decreasing within [min,max] with quantile(0)==min and quantile(1)==max, CDF/PMF consistent, invalid queries rejected; rank error against q(1-q)/k + 1/n scaled (tighter in the tails) for n >= 200.",
+   note="k <= 20, n <= 900; accuracy multiples (45 middle, 6 tails) set above the worst ratios measured on the unchanged tree (20.9, 2.0) because the documentation gives no figure; with an infinity accepted only weight, extremes and memory safety are demanded; one known finding (rank decreasing after an update below a heavy first centroid of a reference-format image)."),
  "C18": dict(engine="E3", design="3/C18", technique="probabilistic choice-tree exploration; exact inclusion probabilities",
    text="EBPPS for k 1..3 over all weight sequences to a bound and merges in both directions: n, cumulative weight, c, sample sizes on every branch; inclusion probability of every item equals c*w/W exactly in expectation.",
    note="Integer weights {1,2,4}."),
  "C19": dict(engine="E5", design="3/C19", technique="BFS over lifecycle operations on 2-3 slots per family with a tracking allocator and instrumented items under ASan",
-   text="For 21 sketch / operator families instantiated with the arena-tracking allocator (a separate arena per slot) and the instrumented item type: BFS to depth 6 (quick) / 8 (thorough) over construct, light update, mode-changing update, merge by reference and by move, copy- and move-construction, copy- and move-assignment, self-assignment, reset, serialize and destroy on 2 (and 3) slots; after every operation copies equal their source, other slots are unchanged, moved-from objects accept destruction and assignment, the ledgers show no arena / size mismatch and no item misuse, no ASan report; every new state is then destroyed completely and nothing may remain allocated, items constructed == destroyed.",
+   text="For 26 sketch / operator families (incl. tuple sketches and unions with instrumented-item summaries and array-of-doubles sketches whose tables grow, and an HLL_4 sketch driven by injected coupons through creation, survival and emptying of its exception map) instantiated with the arena-tracking allocator (a separate arena per slot) and the instrumented item type: BFS to depth 6 (quick) / 8 (thorough) over construct, light update, mode-changing update, merge by reference and by move, copy- and move-construction, copy- and move-assignment, self-assignment, reset, serialize and destroy on 2 (and 3) slots; after every operation copies equal their source, other slots are unchanged, moved-from objects accept destruction and assignment, the ledgers show no arena / size mismatch and no item misuse, no ASan report; every new state is then destroyed completely and nothing may remain allocated, items constructed == destroyed.",
    note="Content alphabet of at most 2 light and 1 mode-changing operation per slot; transient scratch obtained through std::allocator is not gated."),
  "C20": dict(engine="E3", design="3/C20", technique="BFS over point sequences/merges with every coin and shuffle outcome as a branch",
-   text="Density sketch k 2..4, dim 1..2, Gaussian and harness kernels: n, retained==iterated==sum of levels, weights 2^level, retained bound, exact estimate before first compaction, finiteness/non-negativity, merge adds n, wrong dimension refused.",
-   note="4-point grid; shuffle outcomes discovered as equal intervals of the raw draw."),
+   text="Density sketch k 2..4, dim 1..2, double and float, Gaussian and a harness kernel: E1 BFS over the product (sketch x exact multiset) under update by lvalue/rvalue, wrong-dimension update, merge / merge(move) / reverse merge with an operand menu (empty, k-1, k+1 with one entry per compaction outcome, other k, wrong dimension), update-only to 2k+3 and deep merges needing two compactions; every coin and shuffle outcome of a compaction is a branch (interval discovery on the raw draws, cross-checked against direct enumeration for levels of 2..6 points). In every state: n exact, retained == iterated == sum of level sizes, weights 2^level in level order, retained <= k x levels, retained points are inputs with at most their multiplicity, estimates finite and >= 0, estimate == exact kernel mean (1e-12) while nothing has been compacted, is_estimation_mode iff compacted, merge adds n, const operand unchanged, wrong dimension refused with both sides unchanged, plain round trip.",
+   note="4- and 7-point grids; levels of more than 6 points would be capped (did not occur); tape values with 32 zero low bits are nudged because libstdc++'s uniform_int_distribution rejects exactly dyadic raw values for ranges 6, 12, 20, ..."),
 }
 
 # harnesses that are committed but whose triage on the unchanged tree is still in progress
